@@ -428,3 +428,22 @@ Section Nested.
         end
     end.
 End Nested.
+
+(* ---- the layout the model predicts for a concrete list of codegen items (correspondence check) --------
+   an item is (module path, (kind prefix, (Display of the node name, emitted name)));  `extra` = module paths
+   that exist for another reason (workspace mode: modules holding only re-exports).  Result: the modules in
+   the order write_stream opens them, each with the names of its items in emission order (single file) or
+   with the file names write_split_mod creates, in creation order (split). *)
+Definition litem : Type := (path * (string * (string * string)))%type.
+Definition layout_pred (split : bool) (extra : list path) (items : list litem) : list (path * list string) :=
+  let groups := group_by (@fst path _) path_eqb items in
+  map (fun p =>
+         (p, match find (fun g => path_eqb (fst g) p) groups with
+             | Some g =>
+                 if split then
+                   map fst (fst (split_group litem (fun _ => "") (fun it => fst (snd it)) (fun it => fst (snd (snd it)))
+                                             (fst g) (snd g)))
+                 else map (fun it => snd (snd (snd it))) (snd g)
+             | None => []
+             end))
+      (layout (map fst groups ++ extra)).
